@@ -60,6 +60,15 @@ class Entry(NamedTuple):
 
 
 def extract(P: Project, module: str = "gridops") -> List[Entry]:
+    cache = getattr(P, "_registry_cache", None)
+    if cache is None:
+        cache = P._registry_cache = {}
+    if module not in cache:
+        cache[module] = _extract(P, module)
+    return cache[module]
+
+
+def _extract(P: Project, module: str) -> List[Entry]:
     mod = P.module(module)
     out = []
     for st in mod.tree.body:
